@@ -33,7 +33,7 @@ ASSUMPTIONS = [
     "isoelectric_point function per call; NaN / non-numeric pH is not judged (statement speaks of values outside [0,14])",
 ]
 REQUIRED = {"all": ["salted_objects", "sweep_points", "pH_zero_points", "pH_fourteen_points", "rejected_out_of_range", "pI_calls",
-                    "pI_outside_0_14", "pI_nothing_titrates", "pI_reused_as_pH", "numpy_pH_values", "ordered_multi_object_pI"]}
+                    "pI_outside_0_14", "pI_nothing_titrates", "pI_reused_as_pH", "pI_beyond_scale_reused_as_pH", "numpy_pH_values", "ordered_multi_object_pI"]}
 NRANDOM = {"quick": 1200, "thorough": 6000}
 NPH = {"quick": 40, "thorough": 90}
 HI = {"quick": 150, "thorough": 400}
@@ -171,6 +171,17 @@ def judge(case, rep, S):
             if pI is not None and 0 <= pI <= 14:
                 rep.cnt("pI_reused_as_pH")
                 point(pI, " (pH = the pI this object returned before)")
+            elif pI is not None and (pI > 14 or pI < 0):
+                # a pI beyond the scale is a legal answer of the search; as a pH it is out of range like any other value
+                rep.cnt("pI_beyond_scale_reused_as_pH")
+                for nm_ in ("get_NCPR", "get_mean_net_charge", "get_FCR", "get_fraction_expanding"):
+                    try:
+                        r_ = getattr(obj, nm_)(pH=pI) if nm_ != "get_NCPR" else obj.get_NCPR(pI)
+                    except Exception:
+                        rep.cnt("rejected_out_of_range")
+                    else:
+                        rep.viol("accepted_out_of_range", "%s(pH=%r) - the isoelectric point this object returned before - was answered with %r on %s" % (
+                            nm_, pI, r_, seq[:60]), sig={"getter": nm_, "pH_is_own_pI": True})
         point(pH)
     # trace checker: NCPR(pH) never increases with pH
     trace.sort(key=lambda t: t[0])
